@@ -6014,6 +6014,13 @@ class FlowIRConcrete(object):
             interpreter_modification = FlowIR.digest_interpreter_field(ret)
             ret = FlowIR.override_object(ret, interpreter_modification)
 
+            # VV: workflowAttributes.isRepeat depends on workflowAttributes.repeatInterval. Derive it from the layered
+            #     description for every kind of query (not just the fully resolved one) so that it reflects updates
+            #     to repeatInterval that took place after the component got loaded
+            workflow_attributes = ret.get('workflowAttributes')
+            if isinstance(workflow_attributes, dict) and 'repeatInterval' in workflow_attributes:
+                workflow_attributes['isRepeat'] = workflow_attributes['repeatInterval'] not in [None, 0]
+
         #VV: The variables have already been taken care off, there's no need to go through them again
         #    just insert them after fully resolving the FlowIR description of the component
         ret['variables'] = variables
